@@ -1,30 +1,54 @@
 /-
 C05 — No library call panics or overflows, whatever the arguments.
-(partial: the `unreachable!()` sites of the proleptic paths, weekdays, timestamps and
-`Calendar::reforming`; the reforming-calendar sites and the checked-arithmetic layer are
-being added)
+
+`Chk.*` (Model/Checked.lean) is the library's arithmetic once more with every i32 / u32 /
+i64 operation, every `as` cast, every `unreachable!()`, `.expect()` and `debug_assert!`
+made explicit: such a function returns `none` exactly when the Rust code, built with
+overflow checks, would panic.  Every theorem below has the form
+
+    Chk.f args = some (f args)
+
+for all arguments within the parameter types (`InI32`, `InU32`, `InI64`) and every calendar
+a caller can hold (`WF c`): the checked function does not fault, and its answer is the one
+the unbounded model — the one all other properties are proved about — computes, so no answer
+is the product of wrapped arithmetic.  `MonthShape` and `Date` arguments range over the
+values the API hands out (shapes returned by `month_shape`, canonical dates — C06).
+
+Not covered here: the chrono/time conversions (C16 models the foreign crates abstractly), the
+iterators' index arithmetic (C17 proves `MonthIter` never reaches its `.expect`; `Dates::new`
+only steps `start`/`end` inside `1..=31`), `str::parse` and formatting internals (std).
 -/
-import JulianVerif.Lemmas.Proleptic
-import JulianVerif.Model.Time
+import JulianVerif.Lemmas.CheckedMisc
 namespace JV.C05
 open JV Spec
 
-/-- `at_jdn` on a proleptic calendar never reaches its `unreachable!()` — for every integer -/
-theorem atJdn_proleptic_no_fault (ρ : Rule) (j : Int) : (ruleCal ρ).atJdn? j ≠ none := by
-  obtain ⟨y, m, d, h, _⟩ := ruleCal_atJdn ρ j
-  rw [h]; simp
+/-! ### the conversion kernels of inner.rs -/
 
-/-- `Weekday::for_jdn` never reaches its `unreachable!()` -/
-theorem weekday_no_fault (j : Int) : Weekday.forJdn? j ≠ none := by
-  have h0 : 0 ≤ j % 7 := by omega
-  have h1 : j % 7 < 7 := by omega
-  simp only [Weekday.forJdn?]
-  generalize j % 7 = r at *
-  have : r = 0 ∨ r = 1 ∨ r = 2 ∨ r = 3 ∨ r = 4 ∨ r = 5 ∨ r = 6 := by omega
-  rcases this with rfl | rfl | rfl | rfl | rfl | rfl | rfl <;> simp [Weekday.ofInt?]
+/-- `jdn2julian` / `jdn2gregorian`: no i32 operation overflows for any i32 day number -/
+theorem decompose_no_overflow (j : Int) (hj : InI32 j) :
+    Chk.jdn2julian j = some (jdn2julian j) ∧ Chk.jdn2gregorian j = some (jdn2gregorian j) :=
+  ⟨Chk.jdn2julian_eq j hj, Chk.jdn2gregorian_eq j hj⟩
 
-/-- `Calendar::reforming` never panics: its two `at_jdn` calls are on proleptic calendars -/
-theorem reforming_no_fault (r : Int) : Calendar.mkReforming r ≠ .error .fault := by
+/-- `julian2jdn` / `gregorian2jdn`: the explicit guards come first and are tight enough that
+nothing after them overflows, for any i32 year and any day-of-year a caller can pass on -/
+theorem compose_no_overflow (y o : Int) (hy : InI32 y) (h1 : 1 ≤ o) (h2 : o ≤ 366) :
+    Chk.julian2jdn y o = some (julian2jdn y o) ∧ Chk.gregorian2jdn y o = some (gregorian2jdn y o) :=
+  ⟨Chk.julian2jdn_eq y o h1 (by omega), Chk.gregorian2jdn_eq y o hy h1 h2⟩
+
+/-- the guards are exact: a returned day number is always a 32-bit value -/
+theorem conversions_in_range (ρ : Rule) (y o j : Int) (hy : InI32 y) (h1 : 1 ≤ o) (h2 : o ≤ 366)
+    (h : (ruleCal ρ).getJdn y o = some j) : InI32 j := by
+  rw [ruleCal_getJdn ρ y o hy h1 h2] at h
+  split at h
+  · rename_i hc; cases h; exact hc
+  · cases h
+
+/-! ### `Calendar::reforming` -/
+
+/-- **`Calendar::reforming` never overflows and never panics, for every i32 argument** -/
+theorem reforming_no_panic (r : Int) (hr : InI32 r) :
+    Chk.mkReforming r = some (Calendar.mkReforming r) ∧ Calendar.mkReforming r ≠ .error .fault := by
+  refine ⟨Chk.mkReforming_eq r hr, ?_⟩
   simp only [Calendar.mkReforming]
   split
   · simp
@@ -37,8 +61,100 @@ theorem reforming_no_fault (r : Int) : Calendar.mkReforming r ≠ .error .fault 
     · split <;> simp
     · split <;> simp
 
-/-- the `i64 → i32` narrowing in `unix2jdn` happens only after the range check, and the
-second of day fits `u32` -/
+/-! ### conversions on every calendar a caller can hold -/
+
+/-- **`at_jdn` never overflows and never reaches its `unreachable!()`** -/
+theorem atJdn_no_panic (c : Calendar) (hc : WF c) (j : Int) (hj : InI32 j) :
+    ∃ d, Chk.atJdn c j = some d ∧ c.atJdn? j = some d := by
+  obtain ⟨B⟩ := hc.base
+  obtain ⟨d, hd, _⟩ := atJdn_total c hc j
+  exact ⟨d, by rw [B.atJdn_eq j hj, hd], hd⟩
+
+/-- **`at_ymd` returns normally for every i32 year, month and u32 day** -/
+theorem atYmd_no_panic (c : Calendar) (hc : WF c) (y : Int) (hy : InI32 y) (m : Month) (d : Int)
+    (hd : InU32 d) : Chk.atYmd c y m d = some (c.atYmd y m d) := by
+  obtain ⟨B⟩ := hc.base
+  exact B.atYmd_eq y hy m d hd
+
+/-- **`at_ordinal_date` returns normally for every i32 year and u32 day-of-year** -/
+theorem atOrdinalDate_no_panic (c : Calendar) (hc : WF c) (y : Int) (hy : InI32 y) (o : Int)
+    (ho : InU32 o) :
+    Chk.atOrdinalDate c y o = some (c.atOrdinalDate y o)
+    ∧ c.ordinal2ymddo y o ≠ .error .fault := by
+  obtain ⟨B⟩ := hc.base
+  exact ⟨B.atOrdinalDate_eq y hy o ho, B.ordinal2ymddo_no_fault y o⟩
+
+/-- `year_length` (its `unreachable!()` and `debug_assert!`) and `month_shape`, every year -/
+theorem year_queries_no_panic (c : Calendar) (hc : WF c) (y : Int) (m : Month) :
+    Chk.yearLength c y = some (c.yearLength y)
+    ∧ Chk.monthIShape c y m = some (c.monthIShape y m)
+    ∧ 0 ≤ c.yearLength y ∧ c.yearLength y ≤ 366 := by
+  obtain ⟨B⟩ := hc.base
+  exact ⟨B.ylen y, B.mshape y m, B.ylen_nonneg y, B.ylen_le y⟩
+
+/-- the boundary-date accessors -/
+theorem boundary_dates_no_panic (c : Calendar) (hc : WF c) :
+    Chk.lastJulianDate c = some c.lastJulianDate
+    ∧ Chk.firstGregorianDate c = some c.firstGregorianDate :=
+  ⟨Chk.lastJulianDate_eq c hc, Chk.firstGregorianDate_eq c hc⟩
+
+/-! ### `MonthShape` methods, for every shape `month_shape` returns and every u32 argument -/
+
+theorem shape_methods_no_panic (c : Calendar) (hc : WF c) (y : Int) (m : Month) (s : IShape)
+    (hs : c.monthIShape y m = some s) (n : Int) (hn : InU32 n) :
+    Chk.len s = some s.len
+    ∧ Chk.nthDay s n = some (s.nthDay n)
+    ∧ Chk.dayOrdinalErr s y m n = some (s.dayOrdinalErr y m n)
+    ∧ Chk.gap s = some s.gap := by
+  obtain ⟨B⟩ := hc.base
+  have hf := B.fits y m s hs
+  exact ⟨Chk.len_eq s hf, Chk.nthDay_eq s hf n hn, Chk.dayOrdinalErr_eq s hf y m n hn,
+    Chk.gap_eq s hf⟩
+
+/-- `nth_date` (defect D5: months beyond the day-number range) and, before fix F4,
+`nth_day(u32::MAX)` on a gapped month -/
+theorem nthDate_no_panic (c : Calendar) (hc : WF c) (y : Int) (hy : InI32 y) (m : Month)
+    (s : IShape) (hs : c.monthIShape y m = some s) (n : Int) (hn : InU32 n) :
+    Chk.nthDate ⟨c, y, m, s⟩ n = some (MonthShape.nthDate ⟨c, y, m, s⟩ n) := by
+  obtain ⟨B⟩ := hc.base
+  exact B.nthDate_eq y hy m s hs n hn
+
+/-! ### `Date` methods, for every date the library hands out -/
+
+theorem succ_pred_no_panic (d : Date) (hc : WF d.calendar) (hj : InI32 d.jdn)
+    (hcan : d.calendar.atJdn? d.jdn = some d) :
+    Chk.succ d = some d.succ ∧ Chk.pred d = some d.pred
+    ∧ Chk.ordinal0 d = some d.ordinal0 ∧ Chk.dayOrdinal0 d = some d.dayOrdinal0 := by
+  obtain ⟨B⟩ := hc.base
+  obtain ⟨d', hd', _, _, _, _, ho1, ho2⟩ := B.block d.jdn
+  rw [hcan] at hd'; cases hd'
+  have hle := B.ylen_le d.year
+  obtain ⟨_, _, hp⟩ := atJdn?_parts d.calendar d.jdn d hcan
+  have hk := B.dayOrdinal_range d.year d.ordinal d.month d.day d.dayOrdinal hp
+  exact ⟨B.succ_eq d rfl hcan hj, B.pred_eq d rfl hcan hj,
+    Chk.ordinal0_eq d ho1 (by omega), Chk.dayOrdinal0_eq d hk.1 hk.2⟩
+
+/-! ### weekdays and timestamps -/
+
+/-- `Weekday::for_jdn` never reaches its `unreachable!()` -/
+theorem weekday_no_panic (j : Int) :
+    Chk.weekdayForJdn j = Weekday.forJdn? j ∧ Weekday.forJdn? j ≠ none := by
+  refine ⟨Chk.weekdayForJdn_eq j, ?_⟩
+  have h0 : 0 ≤ j % 7 := by omega
+  have h1 : j % 7 < 7 := by omega
+  simp only [Weekday.forJdn?]
+  generalize j % 7 = r at *
+  have : r = 0 ∨ r = 1 ∨ r = 2 ∨ r = 3 ∨ r = 4 ∨ r = 5 ∨ r = 6 := by omega
+  rcases this with rfl | rfl | rfl | rfl | rfl | rfl | rfl <;> simp [Weekday.ofInt?]
+
+/-- `unix2jdn` for every i64, `jdn2unix` for every i32, `system2jdn` for every duration -/
+theorem timestamps_no_panic :
+    (∀ t, InI64 t → Chk.unix2jdn t = some (unix2jdn t))
+    ∧ (∀ j, InI32 j → Chk.jdn2unix j = some (jdn2unix j))
+    ∧ (∀ before secs nanos, 0 ≤ secs → Chk.system2jdn before secs nanos = some (system2jdn before secs nanos)) :=
+  ⟨Chk.unix2jdn_eq, Chk.jdn2unix_eq, Chk.system2jdn_eq⟩
+
+/-- the narrowing casts in `unix2jdn` happen only after the range check -/
 theorem unix2jdn_in_range (t j s : Int) (h : unix2jdn t = some (j, s)) :
     InI32 j ∧ 0 ≤ s ∧ s < 86400 := by
   simp only [unix2jdn] at h
@@ -49,17 +165,16 @@ theorem unix2jdn_in_range (t j s : Int) (h : unix2jdn t = some (j, s)) :
     exact ⟨hc, by omega, by omega⟩
   · cases h
 
-/-- `jdn2unix` cannot overflow `i64` -/
-theorem jdn2unix_in_range (j : Int) (hj : InI32 j) : InI64 (jdn2unix j) := by
-  simp only [jdn2unix, InI64, InI32] at *; omega
-
-/-- the explicit guards of `compose_julian` / `gregorian2jdn` admit only results that fit:
-a returned day number is always a 32-bit value -/
-theorem conversions_in_range (ρ : Rule) (y o j : Int) (hy : InI32 y) (h1 : 1 ≤ o) (h2 : o ≤ 366)
-    (h : (ruleCal ρ).getJdn y o = some j) : InI32 j := by
-  rw [ruleCal_getJdn ρ y o hy h1 h2] at h
-  split at h
-  · rename_i hc; cases h; exact hc
-  · cases h
+/-- the checked layer is not vacuous: it computes on concrete inputs (the extreme day
+numbers, a reforming calendar), and it does fault where the arithmetic really overflows —
+`gregorian2jdn` called outside its callers' contract (day-of-year 600 of year 5874897, which
+passes the guard) overflows i32 -/
+theorem checked_layer_examples :
+    Chk.gregorian2jdn 5874898 154 = some (some 2147483647)
+    ∧ Chk.jdn2gregorian (-2147483648) = some (-5884323, 135)
+    ∧ Chk.atJdn Calendar.reform1582 2299161 = Calendar.reform1582.atJdn? 2299161
+    ∧ Chk.gregorian2jdn 5874897 600 = none
+    ∧ Chk.nthDay (.gapped 5 14 31) 4294967295 = some none := by
+  refine ⟨rfl, rfl, rfl, rfl, rfl⟩
 
 end JV.C05
